@@ -56,6 +56,7 @@ pub(crate) fn setup<C: Config + Default>(stored: usize) -> (AS<C>, Pre, &'static
 /// path). The concrete classes are used where a symbolic load result would make CBMC unroll a
 /// caller's retry loop (compare_and_swap, rcu); all occupancies are covered for the load itself
 /// (l1_attempt, l1_fallback, l1_strategy_load_*), on whose contract the callers depend.
+pub(crate) const OTHER_DEBT: usize = 0x7770;
 pub(crate) const OCC_ANY: u8 = 0;
 pub(crate) const OCC_EMPTY: u8 = 1;
 pub(crate) const OCC_FULL: u8 = 2;
@@ -71,7 +72,9 @@ pub(crate) fn setup_occ<C: Config + Default>(stored: usize, occ: u8) -> (AS<C>, 
             let n = list_h::local_node(l).unwrap();
             let mut i = 0;
             while i < 8 {
-                list_h::poke_slot(n, i, model::addr(1));
+                // debts of older guards on some value outside the pool (a plain number: CBMC folds
+                // comparisons with it, unlike with a pointer cast to an integer)
+                list_h::poke_slot(n, i, OTHER_DEBT);
                 i += 1;
             }
         }
@@ -436,11 +439,9 @@ fn cas_post<C: Config + Default>(s: &AS<C>, r: Guard<TP, HybridStrategy<C>>, pre
 
 // the Guard forms: `current` is a guard (by reference / by value) obtained from any container
 // holding `cur` (here: a second container), so it may itself occupy a debt slot.
-fn api_cas_guard(by_value: bool) {
-    let stored = hy::any_obj();
-    let cur = hy::any_obj();
-    let new = hy::any_obj();
-    let (s, _pre0, node) = setup::<DefaultConfig>(stored);
+fn api_cas_guard(by_value: bool, pattern: usize) {
+    let (stored, cur, new) = CAS_PATTERNS[pattern];
+    let (s, _pre0, node) = setup_occ::<DefaultConfig>(stored, OCC_EMPTY);
     let other: AS<DefaultConfig> = ArcSwapAny::with_strategy(TP::adopt(cur), hy::strategy::<DefaultConfig>());
     let g = other.load();
     let pre = Pre { slots: list_h::view(node).slots };
@@ -476,7 +477,8 @@ fn api_cas_guard(by_value: bool) {
 #[cfg_attr(kani, kani::stub(crate::debt::Node::get, crate::debt::verif_h::list_h::node_get_unexpected))]
 #[cfg_attr(kani, kani::unwind(12))]
 pub(crate) fn api_cas_refguard_default() {
-    api_cas_guard(false);
+    api_cas_guard(false, 1);
+    api_cas_guard(false, 4);
     vcover!("api_cas_refguard_default_end");
 }
 // @harness name=api_cas_guard_default props=C05 tier=thorough flavour=nostd timeout=1800 fn=ArcSwapAny::compare_and_swap+AsRaw::as_raw
@@ -486,7 +488,8 @@ pub(crate) fn api_cas_refguard_default() {
 #[cfg_attr(kani, kani::stub(crate::debt::Node::get, crate::debt::verif_h::list_h::node_get_unexpected))]
 #[cfg_attr(kani, kani::unwind(12))]
 pub(crate) fn api_cas_guard_default() {
-    api_cas_guard(true);
+    api_cas_guard(true, 1);
+    api_cas_guard(true, 4);
     vcover!("api_cas_guard_default_end");
 }
 
@@ -1008,3 +1011,5 @@ pub(crate) fn rg_rcu_script4() {
     rg_rcu([1, 2], OCC_FULL);
     vcover!("rg_rcu_script4_end");
 }
+
+
